@@ -168,7 +168,8 @@ def rng(e, ctx):
     if p and len(p) == 1 and ctx.env is not None:
         d = ctx.env.definition(p)
         if d is not None:
-            dr = rng(d, Ctx(("T",), ctx.env, ctx.enums, (), ctx.assume))
+            dg = getattr(ctx.env, "def_guard", {}).get(p[0], ("T",))
+            dr = rng(d, Ctx(dg, ctx.env, ctx.enums, (), ctx.assume))
             if dr is not None:
                 lo, hi = max(lo, dr[0]), min(hi, dr[1])
     return (lo, hi)
@@ -179,6 +180,13 @@ def check_function(fn, enums, assume=None):
     env = Env(fn["body"])
     out = []
     seen = set()
+    # the guard in force where each local is defined (a definition is evaluated under it)
+    env.def_guard = {}
+    for st, g, loops in ir.guarded_statements_lc(fn["body"], env):
+        if st.get("k") == "Decl":
+            for v in st.get("vars", []):
+                if "n" in v:
+                    env.def_guard["l:%s#%s" % (v["n"], v["id"])] = g
     for st, g, loops in ir.guarded_statements_lc(fn["body"], env):
         nodes = []
         if st.get("k") == "IfCond":
